@@ -21,7 +21,6 @@ public:
 private:
     int _n;
     arr_cmplx _twiddle;
-    mutable arr_cmplx _px;   ///< tmp matrix for transpose
     std::shared_ptr<PlanTree> _plan;
 };
 
